@@ -335,8 +335,10 @@ class URL:
                 netloc = self.netloc
                 _, _, hostname = netloc.rpartition("@")
 
-                if not hostname.endswith("]"):
-                    hostname = hostname.rsplit(":", 1)[0]
+                # cut off the port; the last colon may belong to an IPv6 literal
+                host, colon, port_text = hostname.rpartition(":")
+                if colon and "]" not in port_text:
+                    hostname = host
 
             netloc = hostname
             if port is not None:
